@@ -387,6 +387,10 @@ type Tracer struct {
 	SawCreate       bool
 	NSelfdestruct   int      // SELFDESTRUCT instructions executed (also in frames that revert later)
 	SelfBeneficiary bool     // some SELFDESTRUCT named the destructing contract itself as beneficiary (its balance is burnt)
+	TxGas           uint64   // the transaction's gas limit
+	Steps           uint64   // instructions executed (all frames)
+	StepsExceedGas  bool     // more instructions were executed than the transaction had gas (every instruction costs >= 1): the run was cancelled
+	StepCapHit      bool     // the run was cut after StepCap instructions (undecided, not a verdict)
 	GasIncreased    string   // non-empty: inside one frame the gas available rose from one instruction to the next (what happened)
 	lastGas         map[int]uint64
 	lastOp          map[int]vm.OpCode
@@ -400,6 +404,17 @@ func (t *Tracer) CaptureStart(from common.Address, to common.Address, create boo
 	return nil
 }
 func (t *Tracer) CaptureState(env *vm.EVM, pc uint64, op vm.OpCode, gas, cost uint64, memory *vm.Memory, stack *vm.Stack, contract *vm.Contract, depth int, err error) error {
+	// every instruction costs at least one unit of gas, so a transaction cannot execute more instructions than its gas limit;
+	// if it does, gas is being created somewhere: stop the run (deterministic bound, no clock involved)
+	t.Steps++
+	if t.TxGas > 0 && t.Steps > t.TxGas && !t.StepsExceedGas {
+		t.StepsExceedGas = true
+		env.Cancel()
+	}
+	if t.Steps > StepCap && !t.StepCapHit {
+		t.StepCapHit = true // an enormous gas limit: stop after StepCap instructions and count the case as undecided
+		env.Cancel()
+	}
 	// gas conservation inside a frame: every instruction costs something and a callee cannot hand back more than it was
 	// given (plus the stipend the caller paid for), so the gas seen at one depth never rises
 	if t.lastGas == nil {
@@ -540,7 +555,7 @@ func ErrName(err error) string {
 // ApplyTx runs core.ApplyTransaction with the recording tracer.
 func ApplyTx(cfg *params.ChainConfig, bc *core.BlockChain, header *types.Header, sdb *state.StateDB, gp *core.GasPool, usedGas *uint64,
 	tx *types.Transaction, idx int, u Universe) *TxRun {
-	t := &Tracer{Sdb: sdb, U: u, TxHash: tx.Hash()}
+	t := &Tracer{Sdb: sdb, U: u, TxHash: tx.Hash(), TxGas: tx.Gas()}
 	r := &TxRun{T: t}
 	func() {
 		defer func() {
@@ -644,3 +659,34 @@ func DumpContent(sdb *state.StateDB, u Universe, withEmpty bool) string {
 	}
 	return strings.Join(parts, ",")
 }
+
+// StepCap bounds the instructions of one transaction in the harness (no generated scenario comes near it on a correct EVM)
+const StepCap = 3000000
+
+// StepGuard is a minimal tracer for runs that are not recorded (StateProcessor.Process): it counts instructions and cancels
+// a transaction that executes more instructions than Max (the block gas limit: every instruction costs at least 1 gas).
+type StepGuard struct {
+	Max      uint64
+	steps    uint64
+	Exceeded bool
+}
+
+func (g *StepGuard) CaptureStart(from common.Address, to common.Address, create bool, input []byte, gas uint64, value *big.Int) error {
+	g.steps = 0
+	return nil
+}
+func (g *StepGuard) CaptureState(env *vm.EVM, pc uint64, op vm.OpCode, gas, cost uint64, memory *vm.Memory, stack *vm.Stack, contract *vm.Contract, depth int, err error) error {
+	g.steps++
+	if g.steps > StepCap && !g.Exceeded {
+		env.Cancel()
+	}
+	if g.steps > g.Max && !g.Exceeded {
+		g.Exceeded = true
+		env.Cancel()
+	}
+	return nil
+}
+func (g *StepGuard) CaptureFault(env *vm.EVM, pc uint64, op vm.OpCode, gas, cost uint64, memory *vm.Memory, stack *vm.Stack, contract *vm.Contract, depth int, err error) error {
+	return nil
+}
+func (g *StepGuard) CaptureEnd(output []byte, gasUsed uint64, d time.Duration, err error) error { return nil }
